@@ -8,10 +8,10 @@ mkdir -p $S && rsync -a --exclude /target --exclude .git /repo/ $S/repo/ || exit
 (cd $S/repo && patch -p1 -s < "$PATCH") || { echo "patch does not apply"; rm -rf $S; exit 3; }
 cd /verif
 cp evidence/$ID.json /tmp/evidence.$ID.$$.bak 2>/dev/null
-VERIF_REPO=$S/repo VERIF_WORK=/verif/.work/seed-$ID VERIF_SCRATCH_BASE=$S bin/check "$ID" "$@" > /tmp/try_seed.$ID.log 2>&1
+VERIF_REPO=$S/repo VERIF_WORK=/verif/.work/seed-$ID-$$ VERIF_SCRATCH_BASE=$S bin/check "$ID" "$@" > /tmp/try_seed.$ID.$$.log 2>&1
 RC=$?
-rm -rf $S
-grep -E "VIOLATION|KNOWN-FINDING|UNDECIDED|: OK|violation\(s\)|undecided" /tmp/try_seed.$ID.log | cut -c1-400
+rm -rf $S /verif/.work/seed-$ID-$$
+grep -E "VIOLATION|KNOWN-FINDING|UNDECIDED|: OK|violation\(s\)|undecided" /tmp/try_seed.$ID.$$.log | cut -c1-400
 echo "exit=$RC"
 cp /tmp/evidence.$ID.$$.bak evidence/$ID.json 2>/dev/null
 exit $RC
